@@ -961,6 +961,46 @@ pub fn c14(ctx: &Ctx, st: &mut Stats) {
         c14_prog(st, &p, &mut r);
         c14_truncations(st, &p.s, &mut r);
     }
+    // the `;` of %end / %return / %do %while|%until(...) omitted where the statement is written
+    // inside the parentheses of a call, a quoting function or an expression and the next
+    // significant character is a closer, a separator or ordinary text of that context
+    let n = ctx.draws(4_000, 80_000);
+    for _ in 0..n {
+        let (pre, post) = r.pick(&[
+            ("%m(", ")"), ("%m(a, ", ")"), ("%m(a=", ")"), ("%m(a, b=1, ", ")"), ("%let s = %str(", ");"), ("%str(", ")"), ("%put %upcase(", ");"),
+            ("%m(%n(", "))"), ("%m((", "))"), ("%m(", ", b)"), ("%m(", " x)"), ("%let s = %str(x ", " y);"), ("%put %eval(", ");"), ("%put %sysfunc(cat(", "));"),
+            ("%macro q; %m(", ") %mend;"), ("%macro q; %let s = %str(", "); %mend;"), ("%macro q; %put %left(", "); %mend;"),
+        ]);
+        let stmt = r.pick(&["%return", "%do; b %end", "%do; %end", "%do %while(&i<3)", "%do %until(1)", "%END", "%Return", "%do i=1 %to 2; x %end"]);
+        let pad = r.pick(&["", "", " ", "  ", "\n", "/*c*/", " /* c */ ", "\u{a0}"]);
+        let src = format!("{pre}{stmt}{pad}{post}");
+        let at = pre.len() + stmt.len() + pad.len();
+        let at = at + post.len() - post.trim_start().len();
+        let d = grammar::Deletion {
+            pos: at,
+            prev_end: pre.len() + stmt.len(),
+            error: sas_lexer::error::ErrorKind::MissingExpectedSemiOrEOF,
+            token: TokenType::SEMI,
+            hidden: false,
+            construct: "stmt-inside-parens",
+            padded: !pad.is_empty(),
+            expect_at: Some(at),
+        };
+        st.src(Src::Targeted);
+        st.cases += 1;
+        let ex = exec(&src);
+        st.observe_exec(&ex);
+        let Some(res) = ex.result() else { continue };
+        let v = View::new(&src, res);
+        st.observe_view(&v);
+        let mut fs = wellformed::check_c14(&d, at, &v);
+        fs.extend(wellformed::check_eoi_recovery(&v, &ex));
+        record(st, &fs, &[&src]);
+        st.count("deleted_stmt-inside-parens_SEMI", 1);
+        if d.padded {
+            st.nontrivial(src.as_bytes(), || sample(&src, Some(res), &format!("';' omitted after a statement inside parentheses (expected error at byte {at})")));
+        }
+    }
     // more than 65 535 pending modes (about 13 200 calls nested in argument position) with a
     // speculation that rolls back at that depth; optimized builds only (the debug build's loop
     // detector clones the mode stack on every step)
@@ -1510,6 +1550,19 @@ pub fn c17(ctx: &Ctx, st: &mut Stats) {
             _ => grammar::gen_program(&mut r, ctx.tier.gcfg()).s,
         };
         c17_one(st, &s, Src::Targeted);
+        if r.chance(1, 8) {
+            // first-character family: the only character the lexer may treat specially at offset 0
+            // is U+FEFF; its look-alikes (byte-swapped mark, non-characters, zero-width and control
+            // characters, the mark's mojibake) are ordinary text in both sources
+            let head = r.pick(&[
+                "\u{fffe}", "\u{ffff}", "\u{200b}", "\u{2060}", "\u{fe0f}", "ï»¿", "\0", "\u{1a}", "\u{85}", "\u{a0}", "\u{2028}", "\u{fdd0}", "\u{feff}\u{fffe}", "\u{fffe}\u{feff}", "\u{fefe}",
+                "\u{ff}\u{fe}", "\u{fe}\u{ff}",
+            ]);
+            let t = if r.chance(1, 3) { String::new() } else { s.clone() };
+            if !head.starts_with('\u{feff}') {
+                c17_one(st, &format!("{head}{t}"), Src::Targeted);
+            }
+        }
     }
     for k in (ctx.shard..soup::short_space_size(soup::SHORT_ALPHABET_40, 2)).step_by(ctx.nshards) {
         c17_one(st, &soup::short_string(soup::SHORT_ALPHABET_40, 2, k), Src::Short);
